@@ -282,7 +282,7 @@ def shard(args):
 
 def run(tier, seed):
     parts = 2 if tier == 'quick' else 6
-    shards = [(f, fr, tier, k, parts) for f, (kd, frs) in servers.FRONTS.items() for fr in frs for k in range(parts)]
+    shards = [(f, fr, tier, k, parts) for f, (kd, frs) in servers.FRONTS.items() for fr in frs if fr != 'tls' for k in range(parts)]
     acc = par.run_shards(shard, shards)
     he = None
     if acc.n.get('executions_with_store_change', 0) < 50:
